@@ -98,6 +98,7 @@ func (c07) Generate(r *rand.Rand, tier string) (sim.Config, any) {
 	p.Panel = GenPanel(r, p.Schema, p.IDPool, 8)
 	if tier == "thorough" && r.IntN(3) == 0 {
 		p.Enumerate = true
+		addStalls(r, &cfg)
 		return cfg, p
 	}
 	nf := 5
@@ -113,6 +114,7 @@ func (c07) Generate(r *rand.Rand, tier string) (sim.Config, any) {
 		}
 		p.Faults = append(p.Faults, c07Fault{Kind: kind, KFrac: r.Float64()})
 	}
+	addStalls(r, &cfg)
 	return cfg, p
 }
 
